@@ -6,14 +6,14 @@ COMMON_NOTE = ("Trusted base: the VC generator /verif/govc (go/ssa front end of 
                "SMT encoding), the solvers z3 5.1.0 / z3 4.8.12 / cvc5 1.0.3, the assumed contracts of the standard library and of "
                "constbn/memcall in /verif/specs/external.spec, the native models of encoding/binary, bytes.HasPrefix, fmt.Sprintf and "
                "hmac.New, the init probe (package-level state read back from one execution of the real init()), contracts marked "
-               "'opaque' in /repo/verif_contracts.go (event helpers, memory locking, unsafe wipe, debug dump, processSMPTLV, generateSMP1/2, Fingerprint, receiveEncoded). "
+               "'opaque' in /repo/verif_contracts.go (event helpers, memory locking, unsafe wipe, debug dump, processSMPTLV, generateSMP1/2, Fingerprint, maybeRetransmit). The representation invariants convOK(c) and akeInv(c) of a Conversation are assumed at entry of Receive; their re-establishment is proved on the key-exchange path only. For 'modifies anything' contracts the havoc is bounded by the field-level write set computed from the callee's body (type safety of Go). Assignment targets are evaluated in gc order (after the calls on the right-hand side). "
                "Machine integers are bit-vectors with Go semantics; 64-bit multiplication/division of two symbolic operands are "
                "uninterpreted (sound over-approximation). Cryptographic hardness is never modelled. Only the obligations listed in "
                "/verif/baseline/<id>.txt are claimed as proved; everything else generated for the property is reported in the evidence "
                "as attempted_not_counted.")
 
 P = {
- "C01": ("AKE gating and installation: the encrypted state is entered only inside akeHasFinished and only on a path where the commitment check (sha256 of the decrypted g^x equals the committed hash), the MAC check and the DSA signature check have all returned success in the same call (ghost flags set by checkDecryptedGx / verifyEncryptedSignatureMAC / checkedSignatureVerification); received DH values are proved in range 2..p-2 (real p); Conversation.theirKey changes only after the signature verified; the nine 'unexpected message' cells of the AKE automaton are no-ops; installed key ids and DH keys are those of the exchange.",
+ "C01": ("AKE gating and installation: the encrypted state is entered only inside akeHasFinished and only on a path where the commitment check (sha256 of the decrypted g^x equals the committed hash), the MAC check and the DSA signature check have all returned success in the same call (ghost flags set by checkDecryptedGx / verifyEncryptedSignatureMAC / checkedSignatureVerification); received DH values are proved in range 2..p-2 (real p); Conversation.theirKey changes only after the signature verified; the nine 'unexpected message' cells of the AKE automaton are no-ops; installed key ids and DH keys are those of the exchange; processAKE (the dispatcher over the 16 cells, verified against the AKE representation invariant) changes msgState or the reported peer key only when the MAC and signature flags are set.",
          "Cryptographic unforgeability, SSID agreement between two parties and the MAC term of verifyEncryptedSignatureMAC (prefix of an HMAC) are not decided; c.ssid is assigned before verification (recorded limitation, an existing test pins calcAKEKeys)."),
  "C02": ("Data message acceptance: wire layout of the authenticated part (offsets of flag, key ids, next DH key, counter, ciphertext, MAC) as postconditions of deserialize; checkSign returns nil iff the 20-byte authenticator equals HMAC-SHA1(key, header||unsigned part) as an uninterpreted hash term; plaintext, TLV processing, key rotation and replies happen only after checkSign succeeded in this call (ghost flag), and a message that fails authentication leaves state, key ids, DH keys, counters, disclosed-key list, peer key and SMP state unchanged; key selection accepts exactly current/previous ids.",
          "HMAC unforgeability; equality of the verified key with the spec-derived key term is not proved (session-key derivation is contracted on lengths only)."),
@@ -25,7 +25,7 @@ P = {
          "Replay into later sessions rests on fresh DH keys (not modelled)."),
  "C06": ("Rejected messages: after the repairs, a data message failing authentication changes no session state except the recorded finding (MAC key history, F4); instance tags are adopted only from validated messages; version and key are not committed on header errors; AKE cells return the same state on error and processDHKey/processDHCommit/processEncryptedSig leave their fields unchanged on error; a reveal-signature message rejected at the commitment check leaves the stored commitment bytes and the peer value alone.",
          "Frames cover the listed fields, not the whole heap; a reveal-signature message rejected after the commitment check (bad MAC or signature) has already replaced c.ake.theirPublicValue and the AKE keys (recorded limitation, pinned by Test_calcAKEKeys); F7 (AKE context wiped before parsing a DH-Commit) is not covered by an obligation."),
- "C07": ("AKE transition table: each of the 16 (state,message) cells is contracted with its next state and reply kind; retransmission cell; collision handling. The collision-winner cell violates the specification (known finding F8).",
+ "C07": ("AKE transition table: each of the 16 (state,message) cells is contracted with its next state and reply kind; retransmission cell; collision handling; every cell and the dispatcher processAKE re-establish the representation invariant that ties the stored state to the fields the next cell dereferences (so no cell can be entered with a missing exponent, peer value or long-term key). The collision-winner cell violates the specification (known finding F8).",
          "Termination of the composed two-party system is not decided (liveness of a product automaton is outside contract reasoning)."),
  "C08": ("Zeroing helpers proved to zero in place (wipeBytes, wipeSecretKeyValue, wipeBigInt, dhKeyPair.wipe, akeKeys.wipe, wipeGX, wipeKeys); rotation zeroes the retired private key and keeps state on randomness failure; End/disconnect/akeHasFinished/restart paths are proved to call the wipes exactly once (ghost call counters) and to nil the secret fields.",
          "Zeroing across calls with 'modifies anything' frames is carried by call-presence ghosts, not by byte-level postconditions; resend queue retention (F10) is not covered."),
@@ -37,8 +37,8 @@ P = {
          "Secret binding, message terms, the algebraic iff-lemma and the event gate are not covered by discharged obligations (SMP message processing is an assumed contract)."),
  "C12": ("SMP robustness: group-membership postconditions of verifySMP1/2 and version-specific isGroupElement (v2 violates: known finding F12); out-of-sequence cells of the state machine abort to EXPECT1 with an error event; cheating path; ensureSMP; continueSMP no longer dereferences a nil state.",
          "processSMPTLV is an assumed contract; divMod's invertibility precondition is not established at its call sites."),
- "C13": ("Safety obligations (index, slice bounds, nil dereference, nil interface/func call, division by zero, type assertion, make with negative size, external preconditions) and loop/recursion termination measures for the ~220 functions under contract, including all Extract*/deserialize parsers, the whitespace-tag parser, the recursive s-expression reader (every call consumes input or stops; after the F13 repair) and the libotr key-file import built on it, under arbitrary inputs satisfying the stated preconditions.",
-         "Functions without a contract (key-file export, receiveDecoded/processAKE behind the assumed contract of receiveEncoded, SMP message generation) are not covered; allocation bounds are not checked; the bufio.Reader under the s-expression reader is a ghost model (rdlen/rdpos/rdlast), not verified library code; F19 is a known finding."),
+ "C13": ("Safety obligations (index, slice bounds, nil dereference, nil interface/func call, division by zero, type assertion, make with negative size, external preconditions) and loop/recursion termination measures for the ~220 functions under contract, including all Extract*/deserialize parsers, the whitespace-tag parser, the recursive s-expression reader (every call consumes input or stops; after the F13 repair) and the libotr key-file import built on it, and the Receive entry point itself (receiveUnit, receiveEncoded with receiveDecoded inlined, processAKE, the data-message path) under the representation invariants of a Conversation, with or without long-term keys (F27 repaired), under arbitrary inputs satisfying the stated preconditions.",
+         "Functions without a contract (key-file export, SMP message generation) and the assumed contracts maybeRetransmit/processSMPTLV are not covered; that a processed data message re-establishes convOK and that parsed TLVs stay well-formed across handler calls are stated but not discharged; allocation bounds are not checked; the bufio.Reader under the s-expression reader is a ghost model (rdlen/rdpos/rdlast), not verified library code; F19 is a known finding."),
  "C14": ("Fragmentation: after the repairs, unfragmented pass-through cases, fragment count formula, separator byte, prefix lengths (35/17), receive-side decision table (restart / next with same total / forget / unchanged on error) and its index<=total invariant, decimal fields parsed without truncation, a completed stream is forgotten before the reassembled message is processed (exactly-once hand-over, F20 repaired), accepted fragments inject nothing.",
          "Piece boundaries i*r..min((i+1)*r,l) need nonlinear arithmetic and stay attempted."),
  "C15": ("Instance tags: verdict table of verifyInstanceTags, peer tag learned only from valid messages addressed to us, header fields at offsets 3 and 7, own tag >= 0x100 when generated, ExtractInstanceTags reads the decoded offsets 3 and 7.",
